@@ -15,17 +15,17 @@ CHECKS = {
  "C03": dict(technique="runtime monitoring: mutation monitor over authentic tokens (operator/region oracle by construction, tolerated classes) plus a trace rule on the keystream hook (no decryption event during a rejected call) and a validator call log",
    text="Authentic base tokens of all 8 protocols are altered by exhaustive operators (all single-bit flips, all single-character substitutions, all prefixes, boundary shifts, splices, footer swaps, non-canonical base64, signature re-encodings) and seeded random edits; every mutant is presented to the real entry points at all three layers. A mutant must be rejected with a non-plaintext error, without a keystream event and without any validator call; only the two tolerated classes may be accepted, and only with the original content. quick ~7.5e5 evaluations.",
    note="authenticity of base tokens comes from the library itself; unforgeability of the primitives is assumed; hook placement inside CipherText::from", ref="DESIGN.md section 4 C03"),
- "C04": dict(technique="runtime monitoring: wrong-key monitor (oracle by construction: any acceptance under a different key is a violation) over all single-bit key neighbours and key pools at all three layers",
-   text="Authentic tokens are presented under every single-bit neighbour of their key (symmetric, Ed25519, P-384 point, RSA DER), all-zero/all-one/random/rotated/half-zeroed keys and every other pool key. quick ~6.6e4 evaluations.",
+ "C04": dict(technique="runtime monitoring: wrong-key monitor (oracle by construction: any acceptance under a different key is a violation) over all single-bit key neighbours and key pools at all three layers, plus parser sessions (one parser object, the same token under the right key, another key, the right key again)",
+   text="Authentic tokens are presented under every single-bit neighbour of their key (symmetric, Ed25519, P-384 point, RSA DER), all-zero/all-one/random/rotated/half-zeroed keys and every other pool key; one parser object is handed the same token under changing keys and must answer like a fresh parser each time. quick ~1e5 evaluations.",
    note="forgery resistance of the primitives assumed; different encodings of the same key are out of scope", ref="DESIGN.md section 4 C04"),
- "C05": dict(technique="runtime monitoring: footer monitor (string-equality oracle in the harness, own base64url encoder) over the footer catalogue squared at all three layers, plus footer-segment edits",
-   text="For every protocol and layer a token is built with each catalogue footer and parsed with every catalogue footer; accept iff equal (none == empty). The footer segment of each produced token is compared with the harness's own encoder; removed/emptied/replaced/extended/truncated/added footer segments must fail. quick ~5e4 evaluations.",
+ "C05": dict(technique="runtime monitoring: footer monitor (string-equality oracle in the harness, own base64url encoder) over the footer catalogue squared at all three layers, footer-segment edits (incl. non-canonical encodings and long extensions), parser sessions with a changing expected footer and builders used three times",
+   text="For every protocol and layer a token is built with each catalogue footer and parsed with every catalogue footer; accept iff equal (none == empty). The footer segment of each produced token is compared with the harness's own encoder; removed/emptied/replaced/extended/truncated/padded/non-canonical/added footer segments must fail; one parser whose expected footer changes between parses; three tokens from one builder must all carry the footer. quick ~1.5e5 evaluations.",
    note="empty 4th segment for an explicitly empty footer is decided by C08", ref="DESIGN.md section 4 C05"),
- "C06": dict(technique="runtime monitoring: implicit-assertion monitor (string-equality oracle; length, substring and ciphertext-prefix checks; re-split attack) for v3/v4 at all three layers",
-   text="Accept iff the supplied assertion equals the one used at build time (catalogue squared); token length independent of the assertion; assertion bytes (raw and base64url at 3 alignments) absent from token and decoded payload; nonce||ciphertext identical across assertions with a fixed nonce; (footer, assertion) re-splits rejected. quick ~2e4 evaluations.",
+ "C06": dict(technique="runtime monitoring: implicit-assertion monitor (string-equality oracle; length, substring and ciphertext-prefix checks; re-split attack) for v3/v4 at all three layers, plus parser sessions with a changing assertion and builders used three times",
+   text="Accept iff the supplied assertion equals the one used at build time (catalogue squared); token length independent of the assertion; assertion bytes (raw and base64url at 3 alignments) absent from token and decoded payload; nonce||ciphertext identical across assertions with a fixed nonce; (footer, assertion) re-splits rejected; one parser whose assertion is changed/cleared between parses of the same token; three tokens from one builder all bound. quick ~3e4 evaluations.",
    note="random assertions >= 12 base64 characters (chance occurrence < 2^-60)", ref="DESIGN.md section 4 C06"),
- "C07": dict(technique="runtime monitoring: cross-protocol monitor over all 56 ordered protocol pairs (exhaustive), verbatim and relabelled tokens, shared key material, three layers",
-   text="Tokens of protocol X are presented verbatim and with Y's header to Y's core/generic/batteries entry points using the same key bytes wherever types allow; any acceptance is a violation. quick ~5e3 evaluations over all 56 pairs.",
+ "C07": dict(technique="runtime monitoring: cross-protocol monitor over all 56 ordered protocol pairs (exhaustive), verbatim and relabelled tokens (each first accepted by its own protocol), shared key material, layout-aligned message lengths, three layers",
+   text="Tokens of protocol X are presented verbatim and with Y's header to Y's core/generic/batteries entry points using the same key bytes wherever types allow; any acceptance is a violation; message lengths 0..96 chosen so that foreign bodies line up with the target nonce/tag layout. quick ~4.5e4 evaluations over all 56 pairs.",
    note="forgery resistance of the primitives assumed", ref="DESIGN.md section 4 C07"),
  "C08": dict(technique="runtime monitoring: offline differential checker over recorded event logs in both directions against an independent executable reference (pure-Python refpaseto pinned to all 48 official vectors)",
    text="The library's tokens for explicit (key, nonce, message, footer, assertion) are recomputed by the reference and must be byte-identical (local) / verify (public); builder-produced tokens must open under the reference; the footer segment must be present iff the footer is non-empty; reference-built tokens (fresh nonces, and v1 wire nonces at AES-CTR carry boundaries) must be opened by the library to exactly the message. quick ~3.8e3 tokens each way, thorough ~6e4 with messages to 256 KiB.",
@@ -36,19 +36,19 @@ CHECKS = {
  "C10": dict(technique="runtime monitoring: history monitor over recorded nonce fields of N builds under one key (pairwise distinctness, per-bit Hoeffding bound, constant-byte check) repeated in two separate processes with a cross-process comparison",
    text="For v1-v4 local x {GenericBuilder, PasetoBuilder} x {fresh builder, one builder reused}: 4096 builds (thorough additionally 102400 from 16 threads) with identical claims/footer/assertion; nonces must be pairwise distinct, no byte position constant, every bit frequency within N/2 +- 5.3 sqrt(N); no nonce may occur in both of two separate processes.",
    note="unpredictability proper is out of reach of observation: constants, counters, clocks, message-derived nonces, low entropy and fixed seeds are detected, a statistically clean but weak generator is not", ref="DESIGN.md section 4 C10"),
- "C11": dict(technique="runtime monitoring: time-claim monitor (instant known by construction, renderings from the harness's own calendar arithmetic) over the full UTC-offset x fraction rendering space and a non-timestamp catalogue, against PasetoParser::default()",
-   text="Payloads with crafted exp are parsed by the default parser: every offset -23:59..+23:59 x 0-9 fraction digits x 13 instants on v4.local (thorough: all local protocols), sampled on the others; non-timestamps (numbers, booleans, arrays, objects, empty/near-miss strings) must be rejected; null/absent accepted. quick ~3.8e5 evaluations.",
+ "C11": dict(technique="runtime monitoring: time-claim monitor (instant known by construction, renderings from the harness's own calendar arithmetic) over the full UTC-offset x fraction rendering space and a non-timestamp catalogue, against PasetoParser::default(), plus clock-progress histories (the same parser object must change its answer when the claim crosses now)",
+   text="Payloads with crafted exp are parsed by the default parser: every offset -23:59..+23:59 x 0-9 fraction digits x 13 instants on v4.local (thorough: all local protocols), sampled on the others; non-timestamps (numbers, booleans, arrays, objects, empty/near-miss strings) must be rejected; null/absent accepted; a token whose exp is 1.5 s ahead is parsed, 2.6 s pass, and the same parser (and a fresh one) must now reject it. quick ~3.8e5 evaluations.",
    note="clock margins 2 s / 60 s, stalled cases discarded not failed; leap seconds not driven", ref="DESIGN.md section 4 C11/C12"),
- "C12": dict(technique="runtime monitoring: time-claim monitor mirrored for nbf plus the 3x3 (exp, nbf) grid, against PasetoParser::default()",
+ "C12": dict(technique="runtime monitoring: time-claim monitor mirrored for nbf plus the 3x3 (exp, nbf) grid, against PasetoParser::default(), plus clock-progress histories",
    text="As C11 with the direction reversed (reject nbf >= now+60 s, accept <= now-2 s), non-timestamps rejected, and the independent combinations of (exp, nbf) in {past, future, absent} x 3 offsets on all 8 protocols. quick ~3.8e5 evaluations.",
    note="clock margins 2 s / 60 s, stalled cases discarded not failed", ref="DESIGN.md section 4 C11/C12"),
  "C13": dict(technique="runtime monitoring: reference-model monitor (property-level state machine of the batteries-included builder + clock bracket) over exhaustive call words and seeded random histories, including repeated builds",
    text="All call words up to length 4 (thorough 6) over {set exp/nbf/iat/iss/custom, acknowledge, footer, assertion, build} on v4.local and random words to length 12 on all 8 protocols; every built token is read back and compared with the model: exp present iff not acknowledged, default exp = creation + 1 h exactly, default iat = nbf within the clock bracket, caller values present, nothing else.",
    note="local payloads are read back with the library's decrypt (C01 covers that); 5 ms clock slack", ref="DESIGN.md section 4 C13"),
- "C14": dict(technique="runtime monitoring: claim-map reference-model monitor (last write wins, remove deletes; serde_json equality) over seeded random set/remove histories with JSON trees, native Rust values and typed registered claims",
-   text="GenericBuilder histories of up to 12 set_claim/remove_claim operations are built and parsed back with a validator-free GenericParser on every protocol; the whole parsed object must equal the harness's model object. quick ~7.7e3 histories, thorough ~2.7e5.",
+ "C14": dict(technique="runtime monitoring: claim-map reference-model monitor (last write wins, remove deletes; serde_json equality) over seeded random set/remove histories with JSON trees, native Rust values and typed registered claims, incl. multi-build histories of one builder",
+   text="GenericBuilder histories of up to 12 set_claim/remove_claim operations are built and parsed back with a validator-free GenericParser on every protocol; the whole parsed object must equal the harness's model object; one GenericBuilder driven through set/remove/footer/assertion/build steps must emit the model at every build. quick ~3.6e4 evaluations, thorough ~3e6.",
    note="trusted base: serde_json equality and number formatting; value domain restricted as the property states", ref="DESIGN.md section 4 C14"),
- "C15": dict(technique="runtime monitoring: expected-claim monitor (harness-side comparison of token claims S and expected set E, don't-care for int/float spelling) on GenericParser, PasetoParser::new() and ::default(), plus parser-reuse histories",
+ "C15": dict(technique="runtime monitoring: expected-claim monitor (harness-side comparison of token claims S and expected set E, don't-care for int/float spelling) on GenericParser, PasetoParser::new() and ::default(), plus parser-reuse histories and sessions in which an expectation is replaced on the live parser",
    text="For random S the expectation sets {equal, subset, superset, one value changed, one key changed, null cases} are checked: accept iff no discrepancy, Missing(k) only for a missing k, the error names a failing claim; one parser processing 8 tokens in 4 orders must answer like a fresh parser. quick ~1.1e5 evaluations.",
    note="int-vs-float spellings are don't-care; any failing claim may be the one reported", ref="DESIGN.md section 4 C15"),
  "C16": dict(technique="runtime monitoring: validator call-log monitor (thread-local log written by harness validators, behaviour table) over authentic and forged tokens, registration routes and parser-reuse sequences",
